@@ -253,6 +253,21 @@ def uuid_part(res, work, tier, rng):
     for f in s["fails"]:
         res.violation("id generator: monitor %s failed at trace line %d (scenario %d, run %d)" % (f["mon"], f["line"], f["sc"], f["run"]),
                       {"driver": "uuid", "scenario": hs[f["sc"]], "line": f["line"], "run": f["run"]})
+    if s["drifts"] and not s["fails"]:
+        # ESCALATION: the ids are not derived the way the model says (v5 of namespace and counter).  Uniqueness and
+        # reproducibility are then only as good as the calls observed: many more calls and counter positions.
+        he = []
+        for i in range(40):
+            st = rng.choice([rng.below(10 ** rng.range(1, 19)), 2 ** rng.range(1, 63) - rng.range(1, 5), 10 ** rng.range(1, 19) - rng.range(1, 40)])
+            he.append({"ns": ["dns", "nil", "max"][i % 3], "start": str(st), "threads": [40, 40, 40], "sched": {"mode": "random", "seed": seed() + i, "runs": 2}})
+        he.append({"ns": "dns", "threads": [20000], "sched": {"mode": "random", "seed": 2, "runs": 1}})
+        he.append({"ns": "nil", "start": str(10 ** 6 - 5000), "threads": [5000, 5000], "sched": {"mode": "random", "seed": 3, "runs": 1}})
+        h2 = run_harness("uuid", he, work, "uuidesc", timeout=3000)
+        s2 = tv(h2["trace"], "TraceUuid", "TraceUuid", work, timeout=3000)
+        res.add(traces_validated_against_impl=s2["execs"], uuid_calls=s2["calls"], uuid_escalation_calls=s2["calls"])
+        for f in s2["fails"]:
+            res.violation("id generator (escalation after drift): monitor %s failed at trace line %d (scenario %d, run %d)" % (f["mon"], f["line"], f["sc"], f["run"]),
+                          {"driver": "uuid", "scenario": he[f["sc"]], "line": f["line"], "run": f["run"]})
     return len(s["drifts"])
 
 
